@@ -1026,6 +1026,7 @@ def _sweeps(run, thorough):
                  'calls twice (equal results, first result untouched)' % (len(v_shapes), [round(r, 10) for r in v_radii], v_thr),
                  function='get_volume_searchlight')
     k = 0
+    single_precision = []          # cases of the class pending triage (here and in the next domain)
     for shape in v_shapes:
         for var in [dict(mask='blob', seed=3), dict(mask='random', seed=4, density=0.8)] + \
                 ([dict(mask='random', seed=5, density=0.5)] if thorough else []):
@@ -1044,6 +1045,10 @@ def _sweeps(run, thorough):
                     case['threshold_as'] = ['float64', 'int' if float(thr).is_integer() else 'float', 'float32' if _f32_ok(thr) else 'py'][k % 3]
                     if k % 3 == 0:
                         case['repeat'] = True
+                    if case['dtype'] == 'float32' and case['threshold_as'] == 'float64' and not _f32_ok(thr):
+                        # the fraction of a float32 mask is formed in single precision (7/10 -> 0.699999988 < np.float64(0.7))
+                        single_precision.append((case, 'float32-mask,threshold-within-1e-7-of-fraction'))
+                        case = dict(case, threshold_as='float')
                     spec_empty = not _spec_volume(_build_mask(case), r, thr)
                     ic = 'no-accepted-centre' if spec_empty else 'mask-storage-and-scalar-types'
                     bd.check(orc_volume, case, ic, function='get_volume_searchlight')
@@ -1061,7 +1066,6 @@ def _sweeps(run, thorough):
     if thorough:
         t_shapes += [(1, 1, n) for n in range(2, max_n + 1) if n % 3 != 0] + [(2, 5, 1), (3, 4, 1), (2, 3, 2), (3, 3, 3)]
     k = 0
-    single_precision = []
     for shape in t_shapes:
         n = shape[0] * shape[1] * shape[2]
         for ones in range(1, n + 1):
@@ -1196,8 +1200,10 @@ def _sweeps(run, thorough):
         for method in ('euclidean', 'correlation'):
             if not thorough and (k + (method == 'correlation')) % 2:
                 continue
-            bd.check(orc_sl_rdms, dict(seed=1010 + k, n_centers=1001 + 18 * k, method=method, events=events, n_cond=n_cond, reps=reps, nb_min=3,
-                                       nb_max=5, dtype=dt, centre_order='unsorted'), f'chunked,{dt}-data', function='get_searchlight_RDMs')
+            # correlation: 5-7 voxels, so that no rounded integer pattern is constant over its searchlight (undefined correlation)
+            bd.check(orc_sl_rdms, dict(seed=1010 + k, n_centers=1001 + 18 * k, method=method, events=events, n_cond=n_cond, reps=reps,
+                                       nb_min=3 if method == 'euclidean' else 5, nb_max=5 if method == 'euclidean' else 7, dtype=dt,
+                                       centre_order='unsorted'), f'chunked,{dt}-data', function='get_searchlight_RDMs')
     # call sequences
     for k, n_centers in enumerate([6, 50, 1001] + ([1000, 1100, 1263] if thorough else [])):
         for method in ('euclidean', 'correlation'):
